@@ -18,7 +18,12 @@ type OutsideAtom struct {
 	Site string // guard site(s) in goose this atom is aimed at (documentation)
 	// NoLoop: not placed inside a loop body (it would not compile or not terminate there)
 	NoLoop bool
+	// Light: a reduced set of host positions and arguments (quick tier of the generated families,
+	// where the family's own dimension matters more than the position)
+	Light bool
 }
+
+var lightPositions = map[string]bool{"first": true, "inloop": true, "inclosure": true, "aftereturnif": true, "elseifarm": true}
 
 // host variables: x (var uint64), y (uint64, :=), s ([]uint64 len 4), p (*H{f uint64; g uint32; b byte}),
 // m (map[uint64]uint64), str (string), bs ([]byte len 3), w (var uint32), z (var byte), q (*uint64)
@@ -313,6 +318,9 @@ func AtomPackageVariant(prefix string, a OutsideAtom, rng interface{ Intn(int) i
 	fmt.Fprintf(&b, "package %s\n\nimport (\n\t\"sync\"\n\n\t\"github.com/goose-lang/goose/machine\"\n)\n\n", name)
 	var cases []string
 	args := []uint64{0, 3, 8, 255, 4294967296, 18446744073709551615}
+	if a.Light {
+		args = []uint64{0, 3, 255, 18446744073709551615}
+	}
 	if a.Kind == "decl" {
 		b.WriteString("func keepSync() *sync.Mutex {\n\treturn new(sync.Mutex)\n}\n\nfunc keepMachine(b []byte) uint64 {\n\treturn machine.UInt64Get(b)\n}\n\n" + a.Code + "\n\n")
 		for i, v := range args {
@@ -323,8 +331,12 @@ func AtomPackageVariant(prefix string, a OutsideAtom, rng interface{ Intn(int) i
 		return &Package{Name: name, Source: b.String(), Cases: cases, Features: map[string]int{"outside-" + a.ID: 1}}
 	}
 	b.WriteString(hostPrelude)
+	b.WriteString(hostPrelude3)
 	for _, pos := range HostPositions {
 		if a.NoLoop && (pos == "inloop" || pos == "inclosure" || pos == "inrange" || pos == "ifinloop" || pos == "loopinloop") {
+			continue
+		}
+		if a.Light && !lightPositions[pos] {
 			continue
 		}
 		fn := fmt.Sprintf("host_%s_%s", a.ID, pos)
